@@ -78,6 +78,9 @@ type H2Case struct {
 	// GoAwayTwice (with GoAway): the two-step shutdown of RFC 9113 6.8 - a first GOAWAY with the highest stream id, then
 	// the one with the real last stream id
 	GoAwayTwice bool `json:"goaway_twice,omitempty"`
+	// ClientHalfClose: the client side is a TCP connection; when everything else is done and judged, the client shuts
+	// down its sending side and goes on reading - what the server sends afterwards still reaches it
+	ClientHalfClose bool `json:"client_half_close,omitempty"`
 }
 
 var headerLists = func() [][]hpack.HeaderField {
@@ -311,6 +314,7 @@ func genH2(flow bool) func(t *rapid.T) H2Case {
 		c.Preface2 = !flow && rapid.IntRange(0, 3).Draw(t, "preface2") == 0 // preface forwarding is C10's subject
 		c.GoAway = rapid.IntRange(0, 5).Draw(t, "goaway") == 0
 		c.GoAwayTwice = c.GoAway && rapid.Bool().Draw(t, "goawaytwice")
+		c.ClientHalfClose = !flow && !c.GoAway && rapid.IntRange(0, 3).Draw(t, "clienthalfclose") == 0
 		genSteps(t, &c, flow)
 		return c
 	}
@@ -1046,6 +1050,25 @@ func runH2(c H2Case, checkC10 bool) (fails []vstat.Failure) {
 	}
 	defer ln.Close()
 	cliA, cliRelay := net.Pipe()
+	if c.ClientHalfClose {
+		// a pipe cannot be closed in one direction only
+		pl, err := net.Listen("tcp", "127.0.0.1:0")
+		if err != nil {
+			return []vstat.Failure{vstat.Failf("H2:harness", "listen: %v", err)}
+		}
+		acc := make(chan net.Conn, 1)
+		go func() {
+			x, _ := pl.Accept()
+			acc <- x
+		}()
+		x, err := net.Dial("tcp", pl.Addr().String())
+		y := <-acc
+		pl.Close()
+		if err != nil || y == nil {
+			return []vstat.Failure{vstat.Failf("H2:harness", "client-side TCP pair: %v", err)}
+		}
+		cliA, cliRelay = x, y
+	}
 	cfg := &h2.Config{RootCAs: caPool, EnableDebugLogs: os.Getenv("VERIF_DEBUG") == "2"}
 	closing := make(chan bool)
 	done := make(chan error, 1)
@@ -1211,6 +1234,23 @@ func runH2(c H2Case, checkC10 bool) (fails []vstat.Failure) {
 		credA := r.a.waitFor(2*time.Second, settle(r.a))
 		credB := r.b.waitFor(2*time.Second, settle(r.b))
 		r.judge(c, checkC10, okA, okB, credA, credB)
+		if tc, isTCP := cliA.(*net.TCPConn); c.ClientHalfClose && isTCP && checkC10 && len(r.fails) == 0 {
+			tc.CloseWrite()
+			time.Sleep(20 * time.Millisecond)
+			r.b.wmu.Lock()
+			r.b.fr.WritePing(false, [8]byte{0xC1, 0x05, 0xED})
+			r.b.wmu.Unlock()
+			if !r.a.waitFor(stepBound, func() bool {
+				for _, d := range r.a.pings {
+					if d == [8]byte{0xC1, 0x05, 0xED} {
+						return true
+					}
+				}
+				return false
+			}) {
+				r.fails = append(r.fails, vstat.Failf("C10:client-half-closed", "the client shut down its sending side and kept reading; a PING the server sent afterwards did not reach it within %v", stepBound))
+			}
+		}
 	}
 	for _, e := range []*endpoint{r.a, r.b} {
 		e.mu.Lock()
@@ -1477,6 +1517,9 @@ func classifyH2(c H2Case) (bool, string, []string) {
 			sides[s.Side] = true
 		case "settings":
 			sett = true
+			if c.ClientHalfClose {
+				cls = append(cls, "client-half-close-at-the-end")
+			}
 			if s.Dup {
 				cls = append(cls, "setting-listed-twice")
 			}
